@@ -10,7 +10,7 @@ from ..core import HarnessError, Violation
 
 ID = "C08"
 LEVEL = "exploration"
-RULE = ("exhaustive: 37 representative constrained nodes (every type; value, precision, bounds, lengths, alphabet, regex, list forms, dict forms, any, alias) x the whole zoo (70 objects) x 3 embeddings (alone, typed-list element, dict value); then Hypothesis draws any declarable SchemaSpec (depth<=3, satisfiable or not, float nodes with "
+RULE = ("exhaustive: 39 representative constrained nodes (every type; value, precision, bounds, lengths, alphabet, regex, list forms, dict forms, any, alias) x the whole zoo (70 objects) x 3 embeddings (alone, typed-list element, dict value); then Hypothesis draws any declarable SchemaSpec (depth<=3, satisfiable or not, float nodes with "
         "value+precision included) and a value from the hostile zoo (nan, +-inf, -0.0, ints beyond "
         "2**64 and 10**400, Decimal, Fraction, complex, tuples, sets, bytearray, memoryview, range, "
         "plain subclasses of int/float/str/bytes/list/dict, OrderedDict, defaultdict, UUID v1/3/5/nil, "
@@ -64,7 +64,8 @@ HOT_NODES = [
     {"t": "float", "min": 0.0, "max": 10.0, "precision": 1, "order": ["min", "max", "precision"]},
     {"t": "str"}, {"t": "str", "value": "ab"}, {"t": "str", "len": ["eq", 2], "order": ["len"]},
     {"t": "str", "len": ["range", 1, 3], "alphabet": "ab", "substr": "a", "order": ["len", "alphabet", "substr"]},
-    {"t": "str", "pattern": "^a+$"},
+    {"t": "str", "pattern": "^a+$"}, {"t": "str", "alphabet": "", "order": ["alphabet"]},
+    {"t": "str", "alphabet": "]\\^-", "substr": "", "order": ["alphabet", "substr"]},
     {"t": "bytes"}, {"t": "bytes", "value": b"ab"},
     {"t": "uuid4"}, {"t": "uuid4", "value": _uuid.UUID("12345678-1234-4234-8234-123456789abc")},
     {"t": "datetime"}, {"t": "datetime", "value": _dt.datetime(2020, 1, 2, 3, 4, 5)},
